@@ -128,6 +128,25 @@ func implUnbind(which, s string) (out string, w cpe.WFN, ok bool) {
 			w, err = cpe.UnbindURI(s)
 		case "punbind": // through the deprecated re-export package
 			w, err = pcpe.Unbind(s)
+		case "punbindfs":
+			w, err = pcpe.UnbindFS(s)
+		case "punbinduri":
+			w, err = pcpe.UnbindURI(s)
+		case "mustunbind": // panics exactly when Unbind returns an error
+			func() {
+				defer func() {
+					if r := recover(); r != nil {
+						if e, isErr := r.(error); isErr && e != nil {
+							if _, uerr := cpe.Unbind(s); uerr != nil && uerr.Error() == e.Error() {
+								err = e
+								return
+							}
+						}
+						panic(r)
+					}
+				}()
+				w = pcpe.MustUnbind(s)
+			}()
 		case "unmarshal":
 			err = w.UnmarshalText([]byte(s))
 		case "scan":
@@ -199,7 +218,8 @@ func (h *harness) exec(line string) (string, error) {
 		return string(b), err
 	}
 	switch f[0] {
-	case "validate", "wild", "split", "unbindval", "bindval", "unbindfs", "unbinduri", "unbind", "punbind", "unmarshal", "scan", "scanstr":
+	case "validate", "wild", "split", "unbindval", "bindval", "unbindfs", "unbinduri", "unbind", "punbind", "unmarshal", "scan", "scanstr",
+		"punbindfs", "punbinduri", "mustunbind", "newvalue", "pnewvalue":
 		s, err := str(1)
 		if err != nil {
 			return "", err
@@ -215,6 +235,8 @@ func (h *harness) exec(line string) (string, error) {
 			return h.opUnbindVal(s), nil
 		case "bindval":
 			return h.opBindVal(s), nil
+		case "newvalue", "pnewvalue":
+			return h.opNewValue(f[0], s), nil
 		default:
 			out, _, _ := h.opUnbind(f[0], s)
 			return out, nil
@@ -229,12 +251,23 @@ func (h *harness) exec(line string) (string, error) {
 			return "", err
 		}
 		return h.opPat(a, b), nil
-	case "valid", "bindfs", "string", "marshal":
+	case "valid", "bindfs", "string", "marshal", "sqlvalue", "binduri":
 		w, err := decWFN(f[1:])
 		if err != nil {
 			return "", err
 		}
 		return h.opName(f[0], w), nil
+	case "unmarshal2", "scan2":
+		s, err := str(1)
+		if err != nil {
+			return "", err
+		}
+		w, err := decWFN(f[2:])
+		if err != nil {
+			return "", err
+		}
+		out, _, _ := h.opInto(f[0], w, s)
+		return out, nil
 	case "cmp":
 		if len(f) != 1+2*cpe.NumAttr {
 			return "", fmt.Errorf("cmp wants two names")
@@ -320,6 +353,60 @@ func (h *harness) opUnbind(which, s string) (string, cpe.WFN, bool) {
 	return out, w, ok
 }
 
+// opNewValue: cpe.NewValue / the re-export.
+func (h *harness) opNewValue(op, s string) string {
+	out := hx.Guard(func() string {
+		var v cpe.Value
+		var err error
+		if op == "pnewvalue" {
+			v, err = pcpe.NewValue(s)
+		} else {
+			v, err = cpe.NewValue(s)
+		}
+		if err != nil {
+			if v != (cpe.Value{}) {
+				return "err-with-value"
+			}
+			return "err"
+		}
+		if v.Kind != cpe.ValueSet || v.V != s {
+			return "ok-other-value"
+		}
+		return "ok"
+	})
+	h.r.Op(op+" "+enc(s), out, strings.ContainsAny(s, "\\*?"))
+	h.r.Count(op + ":" + out)
+	if out != "ok" && out != "err" {
+		h.r.Fail("", fmt.Sprintf("%s(%q): %s", op, s, out))
+	}
+	return out
+}
+
+// opInto: UnmarshalText / Scan into a receiver that already holds a name.
+func (h *harness) opInto(op string, w0 cpe.WFN, s string) (string, cpe.WFN, bool) {
+	w := w0
+	ok := false
+	out := hx.Guard(func() string {
+		var err error
+		if op == "scan2" {
+			err = w.Scan(s)
+		} else {
+			err = w.UnmarshalText([]byte(s))
+		}
+		if err != nil {
+			return "err"
+		}
+		ok = true
+		return "ok " + encWFN(w)
+	})
+	h.r.Op(op+" "+enc(s)+" "+encWFN(w0), out, true)
+	h.r.Count(op + ":" + strings.Fields(out)[0])
+	if out == "panic" {
+		h.r.Fail("", fmt.Sprintf("%s panics on %q", op, s))
+	}
+	return out, w, ok
+}
+
 func (h *harness) opName(op string, w cpe.WFN) string {
 	var out string
 	switch op {
@@ -338,6 +425,21 @@ func (h *harness) opName(op string, w cpe.WFN) string {
 			}
 			return enc(string(b))
 		})
+	case "sqlvalue":
+		out = hx.Guard(func() string {
+			v, err := w.Value()
+			if err != nil {
+				return "err"
+			}
+			s, isStr := v.(string)
+			if !isStr {
+				return "not-a-string"
+			}
+			return enc(s)
+		})
+	case "binduri":
+		// the harness's reading of bind_to_URI against the Lean reading (no implementation)
+		out = enc(specBindURI(w))
 	}
 	h.r.Op(op+" "+encWFN(w), out, true)
 	if out == "panic" {
@@ -350,6 +452,7 @@ func (h *harness) opPat(s, t string) string {
 	out := hx.Guard(func() string { return fmt.Sprint(cpe.PatCompareForVerif(s, t)) })
 	h.r.Op("pat "+enc(s)+" "+enc(t), out, true)
 	h.r.Count("pat:" + out)
+	h.checkPatSpec(s, t, out)
 	if out == "panic" {
 		h.r.Fail("", fmt.Sprintf("patCompare panics on %q %q", s, t))
 	}
@@ -738,6 +841,10 @@ func (h *harness) checkURIRoundTrip(w cpe.WFN) {
 		ed = "~" + comp[5] + "~" + comp[7] + "~" + comp[8] + "~" + comp[9] + "~" + comp[10]
 	}
 	uri := "cpe:/" + strings.TrimRight(strings.Join([]string{comp[0], comp[1], comp[2], comp[3], comp[4], ed, comp[6]}, ":"), ":")
+	if u2 := specBindURI(w); u2 != uri {
+		h.r.Fail("", fmt.Sprintf("harness: two constructions of the URI of %q differ: %q %q", w.BindFS(), uri, u2))
+	}
+	h.opName("binduri", w)
 	var want cpe.WFN
 	for i, a := range w.Attr {
 		switch {
@@ -765,6 +872,18 @@ func (h *harness) checkURIRoundTrip(w cpe.WFN) {
 	} else {
 		h.r.Count("uri-roundtrip:same")
 	}
+}
+
+// specBindURI is bind_to_URI of NISTIR 7695 6.1.2 (the package has no URI
+// binder): the seven components, the edition packed with the four extended
+// attributes when one of them is not ANY, trailing colons trimmed.
+func specBindURI(w cpe.WFN) string {
+	var b [cpe.NumAttr]string
+	for i, a := range w.Attr {
+		b[i] = specBindValueForURI(kindLetter(a.Kind)[0], a.V)
+	}
+	s := b[0] + ":" + b[1] + ":" + b[2] + ":" + b[3] + ":" + b[4] + ":" + specPack(b[5], b[7], b[8], b[9], b[10]) + ":" + b[6] + ":"
+	return "cpe:/" + strings.TrimRight(s, ":")
 }
 
 // strict1 says whether one value string is an attribute value of the naming
@@ -874,6 +993,8 @@ func Run(cfg hx.Config) error {
 	}
 	h.replayKnown()
 	h.exhaustiveKinds()
+	h.checkNonASCII()
+	h.dictionary()
 
 	g := h.g
 	// attribute values
@@ -885,6 +1006,10 @@ func Run(cfg hx.Config) error {
 			s = g.brokenValue()
 		}
 		h.opValidate(s)
+		if i%4 == 1 {
+			h.opNewValue("newvalue", s)
+			h.opNewValue("pnewvalue", s)
+		}
 		if i%3 == 0 {
 			h.opWild(s)
 			h.opBindVal(s)
@@ -908,6 +1033,19 @@ func Run(cfg hx.Config) error {
 		h.opName("marshal", w)
 		h.checkRoundTrip(w)
 		h.checkURIRoundTrip(w)
+		if i%2 == 1 || i%8 == 0 {
+			h.opName("binduri", w)
+			other := cpe.WFN{}
+			if g.r.Chance(2, 3) {
+				other = g.cleanWFN()
+			}
+			h.checkMarshal(w, other)
+			// text that does not unbind, into an occupied receiver
+			if i%16 == 1 {
+				h.opInto("unmarshal2", other, g.mutate(g.strictFS()))
+				h.opInto("scan2", other, g.mutate(g.uri()))
+			}
+		}
 	}
 	// strings into the unbinders
 	for i, n := 0, cfg.N(6000, 400000); i < n && !r.Stop(); i++ {
@@ -941,11 +1079,15 @@ func Run(cfg hx.Config) error {
 		}
 		if i%5 == 0 {
 			// the other entry points are the same function
-			for _, which := range []string{"punbind", "unmarshal", "scan", "scanstr"} {
+			for _, which := range []string{"punbind", "unmarshal", "scan", "scanstr", "mustunbind"} {
 				if o2, _, _ := h.opUnbind(which, s); s != "" && o2 != out0 {
 					r.Fail("", fmt.Sprintf("%s and Unbind disagree on %q: %s vs %s", which, s, o2, out0))
 				}
 			}
+		}
+		if i%7 == 0 {
+			h.opUnbind("punbindfs", s)
+			h.opUnbind("punbinduri", s)
 		}
 		if ok && w.Valid() == nil {
 			// what was accepted binds and unbinds to itself
